@@ -65,7 +65,8 @@ impl Property for C14 {
     }
 
     fn generate(&self, rng: &mut Rng, _tier: Tier) -> Case {
-        let mut case = Case::new("C14", "endless");
+        let on_files = rng.chance(1, 3);
+        let mut case = Case::new("C14", if on_files { "endless-file" } else { "endless" });
         let w = StreamWish {
             min_records: 0,
             max_records: 6,
@@ -100,12 +101,53 @@ impl Property for C14 {
             },
             start: rng.below(1000) as u64,
         });
+        if on_files && rng.chance(1, 4) {
+            // a directory argument holding 2..3 files, every one of them the whole prefix
+            // followed by the endless tail: whichever the file system lists first saturates
+            // the limiter, and no other may be opened afterwards (listing order is not ours
+            // to decide, so the scenario is built to be indifferent to it)
+            let n = rng.range(2, 3);
+            let len = case.stream().len();
+            case.files = (0..n)
+                .map(|_| {
+                    let mut p = gen_file_plan(rng, len);
+                    p.endless = case.endless.clone();
+                    p
+                })
+                .collect();
+            case.endless = None;
+            case.set("as_dir", 1);
+            return case;
+        }
+        if on_files {
+            // the prefix is cut into 1..3 files at gaps; the last of them continues endlessly
+            // and may be followed by a file that must never be opened
+            let gaps: Vec<usize> = (0..case.pieces.len())
+                .filter(|i| case.pieces[*i].kind == Kind::Gap)
+                .collect();
+            for _ in 0..rng.below(3) {
+                if !gaps.is_empty() {
+                    let i = *rng.pick(&gaps);
+                    let l = case.pieces[i].bytes.0.len();
+                    case.pieces[i].cut = Some(rng.below(l + 1));
+                }
+            }
+            let n = case.cuts().len() + 1;
+            let datas = split_files(&case);
+            case.files = datas.iter().map(|d| gen_file_plan(rng, d.len())).collect();
+            case.files[n - 1].endless = case.endless.take();
+            case.set("sentinel", i64::from(rng.chance(1, 2)));
+            return case;
+        }
         case.delivery = gen_delivery(rng, case.stream().len());
         case.delivery.whole = false;
         case
     }
 
     fn check(&self, case: &Case, ctx: &mut Ctx) -> Option<Violation> {
+        if case.family == "endless-file" {
+            return check_files(case, ctx);
+        }
         let Some(endless) = &case.endless else {
             ctx.stats.invalid = true;
             return None;
@@ -265,4 +307,284 @@ impl Property for C14 {
         }
         None
     }
+}
+
+/// The same property with the unbounded input arriving through a file argument (hook H2):
+/// the prefix is spread over 1..3 simulated files, the last of which never ends; an
+/// optional further file must never be opened.
+fn check_files(case: &Case, ctx: &mut Ctx) -> Option<Violation> {
+    if case.param("as_dir") == 1 {
+        return check_dir(case, ctx);
+    }
+    let mut datas = split_files(case);
+    if case.files.len() != datas.len() || classify(&case.opts) == Class::Buffering {
+        ctx.stats.invalid = true;
+        return None;
+    }
+    if case.opts.iter().flatten().any(|t| t.contains('&')) {
+        ctx.stats.invalid = true;
+        return None;
+    }
+    let last = datas.len() - 1;
+    let Some(endless) = case.files[last].endless.clone() else {
+        ctx.stats.invalid = true;
+        return None;
+    };
+    if !endless.template.contains("@@") {
+        ctx.stats.invalid = true;
+        return None;
+    }
+    let take: Option<u64> = case.opts.iter().find_map(|o| o[0].strip_prefix("--take=").and_then(|v| v.parse().ok()));
+    let skip: u64 = case
+        .opts
+        .iter()
+        .find_map(|o| o[0].strip_prefix("--skip=").and_then(|v| v.parse().ok()))
+        .unwrap_or(0);
+    let Some(take) = take else {
+        ctx.stats.invalid = true;
+        return None;
+    };
+    let sentinel = case.param("sentinel") == 1;
+    let mut plans = case.files.clone();
+    if sentinel {
+        datas.push(b"{\"id\":-7,\"s\":\"sentinel\",\"arr\":[1]}\n".to_vec());
+        plans.push(FilePlan::default());
+    }
+    let paths = ctx.fresh_paths(datas.len());
+    let m = (2 * (skip + take) + 6) as usize;
+    let finite = |n: usize| {
+        let mut d = datas.clone();
+        for k in 0..n {
+            d[last].extend_from_slice(&endless.record(k as u64));
+        }
+        d
+    };
+    let mut fplans = plans.clone();
+    fplans[last].endless = None;
+    let in_m = finite(m);
+    let in_2m = finite(2 * m);
+    let mut unlimited = case.clone();
+    strip_limits(&mut unlimited.opts);
+    let u1 = ctx.exec(sim_files_spec(&unlimited, &paths, &in_m, &fplans));
+    let u2 = ctx.exec(sim_files_spec(&unlimited, &paths, &in_2m, &fplans));
+    if matches!(u1.outcome, Outcome::Panic(..) | Outcome::Clap(_)) {
+        ctx.stats.invalid = true;
+        ctx.jawk_panic = None;
+        return None;
+    }
+    if u1.outcome.class() != "err" && u2.obs.stdout.len() <= u1.obs.stdout.len() {
+        ctx.stats.invalid = true;
+        ctx.stats.probe("skipped: tail produces no rows for this pipeline");
+        return None;
+    }
+    let l1 = ctx.exec(sim_files_spec(case, &paths, &in_m, &fplans));
+    let l2 = ctx.exec(sim_files_spec(case, &paths, &in_2m, &fplans));
+    if l1.obs.stdout != l2.obs.stdout || l1.outcome.class() != l2.outcome.class() {
+        ctx.stats.invalid = true;
+        ctx.stats.probe("skipped: limiter not saturated on M records");
+        return None;
+    }
+    let prefix_len: usize = datas.iter().take(last + 1).map(Vec::len).sum();
+    let d = if take == 0 && l1.outcome.is_ok() {
+        let mut one = case.clone();
+        for o in one.opts.iter_mut() {
+            if o[0].starts_with("--take=") {
+                o[0] = "--take=1".into();
+            }
+        }
+        let r = ctx.exec(sim_files_spec(&one, &paths, &in_m, &fplans));
+        let r2 = ctx.exec(sim_files_spec(&one, &paths, &in_2m, &fplans));
+        if r.obs.stdout != r2.obs.stdout || r.obs.stdout.is_empty() {
+            ctx.stats.invalid = true;
+            return None;
+        }
+        delivered_when_out_reached(&r.obs.events, r.obs.stdout.len()).unwrap_or(0)
+    } else {
+        delivered_when_out_reached(&l1.obs.events, l1.obs.stdout.len()).unwrap_or(prefix_len)
+    };
+    let mut spec = sim_files_spec(case, &paths, &datas, &plans);
+    spec.files[last].byte_budget = prefix_len.max(d) + BUDGET_EXTRA;
+    spec.max_events = 2_000_000;
+    let r = ctx.exec(spec);
+    ctx.stats.nontrivial = true;
+    ctx.stats.fault("endless-input.file", 1);
+    if sentinel {
+        ctx.stats.probe("endless file followed by a further file");
+    }
+    if last > 0 {
+        ctx.stats.probe("endless file preceded by finite files");
+    }
+    if let Outcome::Abort(why) = &r.outcome {
+        return viol(
+            "C14.terminates",
+            format!(
+                "jawk keeps reading an endless file although --take={take} --skip={skip} was satisfied after {d} bytes: {why} (devices delivered {} bytes)",
+                r.obs.delivered
+            ),
+        );
+    }
+    if matches!(r.outcome, Outcome::Panic(..)) {
+        return None;
+    }
+    if r.outcome.class() != l1.outcome.class() {
+        return viol(
+            "C14.terminates",
+            format!("endless-file run returned {} but the finite reference returned {}", r.outcome.describe(), l1.outcome.describe()),
+        );
+    }
+    if r.outcome.is_ok() {
+        let over = r.obs.delivered.saturating_sub(d);
+        ctx.stats.probe(match over {
+            0 => "file devices: overshoot past the last row's byte: 0",
+            1..=8192 => "file devices: overshoot past the last row's byte: 1..8192 (jawk's BufReader)",
+            _ => "file devices: overshoot past the last row's byte: > 8192",
+        });
+        if r.obs.delivered > d + SLACK {
+            return viol(
+                "C14.bounded",
+                format!("the file devices delivered {} bytes although the last row was complete after {d} bytes (allowance {SLACK})", r.obs.delivered),
+            );
+        }
+        if sentinel && r.obs.files.last().map_or(0, |f| f.opened) > 0 && l1.obs.files.last().map_or(0, |f| f.opened) == 0 {
+            return viol(
+                "C14.bounded",
+                "a further file argument was opened after the limit had been reached".to_string(),
+            );
+        }
+    }
+    if strip_paths(&r.obs.stdout, &paths) != strip_paths(&l1.obs.stdout, &paths) {
+        return viol(
+            "C14.rows",
+            format!("rows emitted before the early stop differ from the finite run: {} vs {}", show(&r.obs.stdout), show(&l1.obs.stdout)),
+        );
+    }
+    None
+}
+
+fn dir_spec(case: &Case, dir: &str, paths: &[String], datas: &[Vec<u8>], plans: &[FilePlan]) -> RunSpec {
+    let mut spec = sim_files_spec(case, paths, datas, plans);
+    let keep = spec.argv.len() - paths.len();
+    spec.argv.truncate(keep);
+    spec.argv.push(dir.to_string());
+    spec
+}
+
+/// A directory argument whose files are all endless: exactly one of them may be opened.
+fn check_dir(case: &Case, ctx: &mut Ctx) -> Option<Violation> {
+    let n = case.files.len();
+    if n < 2 || classify(&case.opts) == Class::Buffering || case.opts.iter().flatten().any(|t| t.contains('&')) {
+        ctx.stats.invalid = true;
+        return None;
+    }
+    let Some(endless) = case.files[0].endless.clone() else {
+        ctx.stats.invalid = true;
+        return None;
+    };
+    if !endless.template.contains("@@") || case.files.iter().any(|f| f.endless.as_ref() != Some(&endless)) {
+        ctx.stats.invalid = true;
+        return None;
+    }
+    let take: Option<u64> = case.opts.iter().find_map(|o| o[0].strip_prefix("--take=").and_then(|v| v.parse().ok()));
+    let skip: u64 = case
+        .opts
+        .iter()
+        .find_map(|o| o[0].strip_prefix("--skip=").and_then(|v| v.parse().ok()))
+        .unwrap_or(0);
+    let Some(take) = take else {
+        ctx.stats.invalid = true;
+        return None;
+    };
+    let prefix = case.stream();
+    let dir = ctx.fresh_path("d").to_string_lossy().to_string();
+    if std::fs::create_dir_all(&dir).is_err() {
+        ctx.harness_error = Some(format!("cannot create {dir}"));
+        return None;
+    }
+    let paths: Vec<String> = (0..n).map(|i| format!("{dir}/part{i}.json")).collect();
+    let m = (2 * (skip + take) + 6) as usize;
+    let finite = |k: usize| {
+        let mut v = prefix.clone();
+        for i in 0..k {
+            v.extend_from_slice(&endless.record(i as u64));
+        }
+        v
+    };
+    let mut fplans = case.files.clone();
+    for p in fplans.iter_mut() {
+        p.endless = None;
+    }
+    // single-file references decide validity and d (the directory must behave like its first file)
+    let one_m = vec![finite(m)];
+    let one_2m = vec![finite(2 * m)];
+    let mut unlimited = case.clone();
+    strip_limits(&mut unlimited.opts);
+    let res = (|| {
+        let u1 = ctx.exec(sim_files_spec(&unlimited, &paths[..1], &one_m, &fplans[..1]));
+        let u2 = ctx.exec(sim_files_spec(&unlimited, &paths[..1], &one_2m, &fplans[..1]));
+        if matches!(u1.outcome, Outcome::Panic(..) | Outcome::Clap(_)) {
+            ctx.stats.invalid = true;
+            ctx.jawk_panic = None;
+            return None;
+        }
+        if u1.outcome.class() == "err" || u2.obs.stdout.len() <= u1.obs.stdout.len() {
+            // also skips --on-error=panic on a noisy prefix: which file reports it depends on the listing
+            ctx.stats.invalid = true;
+            ctx.stats.probe("skipped: tail produces no rows for this pipeline");
+            return None;
+        }
+        let l1 = ctx.exec(sim_files_spec(case, &paths[..1], &one_m, &fplans[..1]));
+        let l2 = ctx.exec(sim_files_spec(case, &paths[..1], &one_2m, &fplans[..1]));
+        if l1.obs.stdout != l2.obs.stdout || !l1.outcome.is_ok() || !l2.outcome.is_ok() || take == 0 {
+            ctx.stats.invalid = true;
+            ctx.stats.probe("skipped: limiter not saturated on M records");
+            return None;
+        }
+        // the limiter must really have said Break inside the first file: otherwise (e.g. --unique
+        // swallowing the rows of identical later files) nothing forbids opening the next one
+        let d = delivered_when_out_reached(&l1.obs.events, l1.obs.stdout.len()).unwrap_or(prefix.len());
+        let datas: Vec<Vec<u8>> = (0..n).map(|_| prefix.clone()).collect();
+        let mut spec = dir_spec(case, &dir, &paths, &datas, &case.files);
+        for f in spec.files.iter_mut() {
+            f.byte_budget = prefix.len().max(d) + BUDGET_EXTRA;
+        }
+        spec.max_events = 2_000_000;
+        let r = ctx.exec(spec);
+        ctx.stats.nontrivial = true;
+        ctx.stats.fault("endless-input.directory", 1);
+        if let Outcome::Abort(why) = &r.outcome {
+            return viol(
+                "C14.terminates",
+                format!("jawk keeps reading the endless files of a directory although --take={take} --skip={skip} was satisfied after {d} bytes: {why}"),
+            );
+        }
+        if matches!(r.outcome, Outcome::Panic(..)) {
+            return None;
+        }
+        if !r.outcome.is_ok() {
+            return viol("C14.terminates", format!("directory run returned {}", r.outcome.describe()));
+        }
+        let opened: u32 = r.obs.files.iter().map(|f| f.opened).sum();
+        if opened != 1 {
+            return viol(
+                "C14.bounded",
+                format!("{opened} files of the directory were opened although the first one alone satisfies --take={take} --skip={skip}"),
+            );
+        }
+        if r.obs.delivered > d + SLACK {
+            return viol(
+                "C14.bounded",
+                format!("the file devices delivered {} bytes although the last row was complete after {d} bytes", r.obs.delivered),
+            );
+        }
+        let all: Vec<String> = paths.iter().cloned().chain(std::iter::once(dir.clone())).collect();
+        if strip_paths(&r.obs.stdout, &all) != strip_paths(&l1.obs.stdout, &all) {
+            return viol(
+                "C14.rows",
+                format!("rows emitted before the early stop differ from the single-file run: {} vs {}", show(&r.obs.stdout), show(&l1.obs.stdout)),
+            );
+        }
+        None
+    })();
+    let _ = std::fs::remove_dir_all(&dir);
+    res
 }
